@@ -4,7 +4,10 @@ import (
 	"bytes"
 	"fmt"
 	"image"
+	"image/color"
 	"image/draw"
+
+	"github.com/reactivego/ivg"
 
 	"github.com/reactivego/ivg/decode"
 	"github.com/reactivego/ivg/encode"
@@ -232,6 +235,43 @@ var c17Rects = []image.Rectangle{
 	image.Rect(0, 0, 1, 1),
 	image.Rect(0, 0, 200, 120),
 	{},
+}
+
+// moved returns a rectangle of the same size at another origin (the next
+// cell of a sprite sheet): what changes is only the position.
+func moved(t *tape.Tape, r image.Rectangle) image.Rectangle {
+	return r.Add(image.Pt(t.Range(-40, 40), t.Range(1, 40)))
+}
+
+// metadataFor draws the second use's Reset arguments in relation to the
+// first use: unrelated (nil), the very same metadata again, the default
+// metadata, or Go's zero values (a valid, if degenerate, viewBox 0,0,0,0 and
+// an all-transparent palette) — the relations a "same as last time" shortcut
+// or a zero-value slip would key on.
+func relateMetadata(t *tape.Tape, a, b []world.Op) {
+	if len(b) == 0 || b[0].K != world.KReset {
+		return
+	}
+	switch t.Pick(6, 2, 1, 2) {
+	case 1:
+		for i := len(a) - 1; i >= 0; i-- {
+			if a[i].K == world.KReset {
+				b[0].VB, b[0].Pal = a[i].VB, a[i].Pal
+				return
+			}
+		}
+	case 2:
+		pal := ivg.DefaultPalette
+		b[0].VB, b[0].Pal = ivg.DefaultViewBox, &pal
+	case 3:
+		var pal [64]color.RGBA
+		if t.Bool() {
+			b[0].VB = ivg.ViewBox{}
+		}
+		if t.Bool() {
+			b[0].Pal = &pal
+		}
+	}
 }
 
 // deliver feeds prog to the Renderer, either by direct calls or through the
@@ -476,6 +516,7 @@ func c17Run(ctx *Ctx, t *tape.Tape) *report.Violation {
 		hiBefore := t.Chance(1, 4)
 		last := rs[len(rs)-1]
 		b := genBFrom(t, last.a)
+		relateMetadata(t, last.a, b)
 		v := encReuse(ctx, t, last.a, b, last.cut, last.cause, func(e *encode.Encoder) {
 			e.HighResolutionCoordinates = hiBefore
 			for _, r := range rs[:len(rs)-1] {
@@ -497,6 +538,7 @@ func c17Run(ctx *Ctx, t *tape.Tape) *report.Violation {
 	case c17EncEnum:
 		a := genA(t)
 		b := genBFrom(t, a)
+		relateMetadata(t, a, b)
 		if len(a) > 80 && ctx.Tier != "thorough" {
 			a = a[:80]
 		}
@@ -521,8 +563,12 @@ func c17Run(ctx *Ctx, t *tape.Tape) *report.Violation {
 		rect := c17Rects[t.Pick(5, 2, 2, 1, 2, 1)]
 		viaBytes := t.Bool()
 		var rect2 *image.Rectangle
-		if t.Chance(1, 5) {
+		switch t.Pick(6, 1, 2) {
+		case 1:
 			r2 := c17Rects[t.Intn(len(c17Rects))]
+			rect2 = &r2
+		case 2:
+			r2 := moved(t, rect)
 			rect2 = &r2
 		}
 		if mode == c17RendEnum {
@@ -560,6 +606,7 @@ func c17Run(ctx *Ctx, t *tape.Tape) *report.Violation {
 			causes = append(causes, []abortCause{causeStop, causeStop, causeDecodeErr, causeDecodeErr, causeComplete}[t.Intn(5)])
 		}
 		b := genBFrom(t, as[len(as)-1])
+		relateMetadata(t, as[len(as)-1], b)
 		v := rendReuse(ctx, t, as, cuts, causes, b, rect, viaBytes, rect2)
 		if v == nil && st != nil && rounds > 1 {
 			st.Add("probe_multiple_abort_restart_rounds", 1)
